@@ -51,7 +51,7 @@ MUTANTS = [
             super()._on_queue_feeder_error(e, obj)""")),
     M("wake-shutdown-no-wakeup", ["C01"], ["R-WAKE"],
       (PE, """            with self._shutdown_lock:
-                self._executor_manager_thread_wakeup.wakeup()
+                executor_manager_thread_wakeup.wakeup()
 
         if executor_manager_thread is not None and wait:""", """            pass
 
@@ -85,9 +85,9 @@ MUTANTS = [
     # ------------------------------------------------------------- R-WAKE-LOCK
     M("wakelock-shutdown-outside-lock", ["C01", "C05"], ["R-WAKE-LOCK"],
       (PE, """            with self._shutdown_lock:
-                self._executor_manager_thread_wakeup.wakeup()
+                executor_manager_thread_wakeup.wakeup()
 
-        if executor_manager_thread is not None and wait:""", """            self._executor_manager_thread_wakeup.wakeup()
+        if executor_manager_thread is not None and wait:""", """            executor_manager_thread_wakeup.wakeup()
 
         if executor_manager_thread is not None and wait:""")),
     M("wakelock-close-outside-lock", ["C01", "C05"], ["R-WAKE-LOCK"],
@@ -409,10 +409,9 @@ MUTANTS = [
     M("api-shutdown-flag-without-lock", ["C05"], ["R-SHUTDOWN-API"],
       (PE, """        with self.shutdown_lock:
             self.shutdown = True
-            if kill_workers is not None:
-                self.kill_workers = kill_workers""", """        self.shutdown = True
-        if kill_workers is not None:
-            self.kill_workers = kill_workers""")),
+            if kill_workers:""", """        if True:
+            self.shutdown = True
+            if kill_workers:""")),
     M("api-join-outside-global-lock", ["C05"], ["R-SHUTDOWN-API"],
       (PE, """            with _global_shutdown_lock:
                 executor_manager_thread.join()
@@ -611,12 +610,14 @@ MUTANTS = [
                     onerror(e, obj)""", """                    onerror(e, obj)""")),
     M("feeder-pickle-under-lock", ["C04"], ["R-PAIR"],
       (QU, """                    obj_ = dumps(obj, reducers=reducers)
+                    sending = True
                     if wacquire is None:
                         send_bytes(obj_)
                     else:
                         wacquire()
                         try:
-                            send_bytes(obj_)""", """                    if wacquire is None:
+                            send_bytes(obj_)""", """                    sending = True
+                    if wacquire is None:
                         obj_ = dumps(obj, reducers=reducers)
                         send_bytes(obj_)
                     else:
@@ -734,9 +735,9 @@ MUTANTS = [
       (RE, """                    executor.shutdown(wait=True, kill_workers=kill_workers)""", """                    executor.shutdown(wait=True)""")),
     M("killpath-manager-resets-flag", ["C06"], ["R-KILL-PATH"],
       (PE, """            self.shutdown = True
-            if kill_workers is not None:
-                self.kill_workers = kill_workers""", """            self.shutdown = True
-            self.kill_workers = bool(kill_workers)""")),
+            if kill_workers:""", """            self.shutdown = True
+            self.kill_workers = bool(kill_workers)
+            if False:""")),
     M("killpath-kill-before-failing", ["C06"], ["R-KILL-PATH"],
       (PE, """        if self.executor_flags.kill_workers:
             while self.pending_work_items:""", """        if self.executor_flags.kill_workers:
@@ -956,17 +957,17 @@ MUTANTS = [
     M("kill-flag-sticky-first-mode", ["C06"], ["R-KILL-PATH"],
       (PE, """        with self.shutdown_lock:
             self.shutdown = True
-            if kill_workers is not None:""", """        with self.shutdown_lock:
+            if kill_workers:""", """        with self.shutdown_lock:
             if self.shutdown:
                 return
             self.shutdown = True
-            if kill_workers is not None:""")),
+            if kill_workers:""")),
     M("kill-flag-only-when-not-shutdown", ["C06"], ["R-KILL-PATH"],
       (PE, """            self.shutdown = True
-            if kill_workers is not None:
-                self.kill_workers = kill_workers""", """            if kill_workers is not None and not self.shutdown:
-                self.kill_workers = kill_workers
-            self.shutdown = True""")),
+            if kill_workers:""", """            if kill_workers and not self.shutdown:
+                self.kill_workers = True
+            self.shutdown = True
+            if False:""")),
     M("rt-sweep-only-folders-in-loop", ["C11", "C13"], ["R-RT-SWEEP"],
       (RT, """            if rtype == "folder":
                 continue
@@ -1286,6 +1287,7 @@ MUTANTS = [
     # ------------------------------------- round-3 seeds
     M("feeder-popped-object-overwritten-by-bytes", ["C01", "C04"], ["R-FEEDER"],
       (QU, """                    obj_ = dumps(obj, reducers=reducers)
+                    sending = True
                     if wacquire is None:
                         send_bytes(obj_)
                     else:
@@ -1296,6 +1298,7 @@ MUTANTS = [
                             wrelease()
                     # Remove references early to avoid leaking memory
                     del obj, obj_""", """                    obj = dumps(obj, reducers=reducers)
+                    sending = True
                     if wacquire is None:
                         send_bytes(obj)
                     else:
@@ -2477,6 +2480,20 @@ _resource_tracker""")),
 
 
 def kill_process_tree(process, use_psutil=True):""")),
+    M("queue-close-override-early-return", ["C05", "C20"], ["R-FEEDER"],
+      (QU, """    # Overload _start_thread to correctly call our custom _feed
+    def _start_thread(self):""", """    def close(self):
+        self._closed = True
+        if self._reader.closed:
+            return
+        self._reader.close()
+        close = self._close
+        if close:
+            self._close = None
+            close()
+
+    # Overload _start_thread to correctly call our custom _feed
+    def _start_thread(self):""")),
 ]
 
 
@@ -2710,6 +2727,17 @@ BENIGN = [
                     splitted = line.decode("ascii").split(":")""")),
     B("benign-tracker-launch-names-module-by-name-global", ["C11", "C12", "C13", "C18"],
       (RT, '''            cmd = f"from {main.__module__} import main; main({r}, {VERBOSE})"''', '''            cmd = f"from {__name__} import main; main({r}, {VERBOSE})"''')),
+    B("benign-queue-close-override-calls-finaliser", ["C05", "C20"],
+      (QU, """    # Overload _start_thread to correctly call our custom _feed
+    def _start_thread(self):""", """    def close(self):
+        self._closed = True
+        close = self._close
+        if close:
+            self._close = None
+            close()
+
+    # Overload _start_thread to correctly call our custom _feed
+    def _start_thread(self):""")),
     B("benign-env-overlay-copied", ["C18", "C20"],
       (PR, """        self.env = {} if env is None else env""", """        self.env = dict(env or {})""")),
     B("benign-increment-spelled-out", None,
